@@ -190,9 +190,9 @@ def check_property(a):
           % (prop, len(results), len(counted), len(proved), len(refuted), len(unknown), len(seen_kf), exit_code, time.time() - t0))
     if a.v:
         for o in refuted + unknown:
-            print('  %s %s %s line=%s' % (o['status'], o['unit'], o['name'], o['line']))
-            if o.get('goal'):
-                print('     goal:', o['goal'][:600])
+            print('  %s %s %s line=%s %s' % (o['status'], o['unit'], o['name'], o['line'], ((o.get('info') or {}).get('expr') or '')[:160]))
+            if o.get('goal') and os.environ.get('PYVC_SHOW_GOAL'):
+                print('     goal:', o['goal'][-600:])
             if o.get('model'):
                 pm = {k: v for k, v in o['model'].items() if k.startswith('p!') or k.startswith('kw')}
                 print('     model params:', pm)
